@@ -850,7 +850,7 @@ def build_unit(unit_dir, out_dir):
         if d.name in ("fn", "fn?"):
             cur_fn = (d, [])
             top.append(("fn", cur_fn))
-        elif d.name in ("requires", "ensures", "rewrite", "loop", "forloop", "closure", "hint", "sig", "decreases", "recommends", "fnattr", "rename", "tracevar", "drop", "world"):
+        elif d.name in ("requires", "ensures", "rewrite", "loop", "loop?", "forloop", "closure", "hint", "hint?", "sig", "decreases", "recommends", "fnattr", "rename", "tracevar", "drop", "world"):
             if cur_fn is None:
                 raise VxError(f"unit.vx:{d.lineno}: @{d.name} outside @fn")
             cur_fn[1].append(d)
@@ -956,18 +956,20 @@ def build_unit(unit_dir, out_dir):
     os.makedirs(out_dir, exist_ok=True)
     text = em.text()
     open(os.path.join(out_dir, "unit.rs"), "w").write(text)
-    # vacuity file
-    vac_lines = text.split("\n")
-    points = []
-    for (ln, what) in sorted(info["vac_points"], reverse=True):
-        # insert after line ln (1-based): an assert(false)
-        vac_lines.insert(ln, "    assert(false); // VACUITY-PROBE " + what)
-    # recompute probe line numbers
-    for idx, l in enumerate(vac_lines, 1):
-        if "// VACUITY-PROBE " in l:
-            points.append({"line": idx, "what": l.split("// VACUITY-PROBE ")[1]})
-    open(os.path.join(out_dir, "unit_vac.rs"), "w").write("\n".join(vac_lines))
-    info["vac_probes"] = points
+    # vacuity files: function entries and loop bodies are probed in separate files (a failed entry probe is assumed
+    # afterwards, which would make loop probes of non-isolated loops pass trivially)
+    info["vac_probes"] = []
+    for fname, sel in (("unit_vac.rs", lambda w: w.endswith("::entry")), ("unit_vac2.rs", lambda w: not w.endswith("::entry"))):
+        vac_lines = text.split("\n")
+        pts = [(ln, what) for (ln, what) in info["vac_points"] if sel(what)]
+        if not pts:
+            continue
+        for (ln, what) in sorted(pts, reverse=True):
+            vac_lines.insert(ln, "    assert(false); // VACUITY-PROBE " + what)
+        for idx, l in enumerate(vac_lines, 1):
+            if "// VACUITY-PROBE " in l:
+                info["vac_probes"].append({"file": fname, "line": idx, "what": l.split("// VACUITY-PROBE ")[1]})
+        open(os.path.join(out_dir, fname), "w").write("\n".join(vac_lines))
     info["map"] = [{"first": a, "last": b, **c} for a, b, c in em.map]
     info["preludes"] = preludes
     json.dump(info, open(os.path.join(out_dir, "unit.map.json"), "w"), indent=1)
@@ -1104,12 +1106,17 @@ def emit_fn(em, info, unit, cur_source, blk, typemap):
                     sec[cur].append(line)
             sec = {k: "\n".join(v).strip() for k, v in sec.items()}
             loops = find_loops(ft)
-            if nth > len(loops) or loops[nth - 1][0] != "for":
-                raise VxError(f"lost anchor: {fnpath} loop {nth} is not a `for` loop")
+            want = [t[0] for t in tokenize(sec.get("match", ""))]
+            def hdr_toks(L):
+                return [t[0] for t in tokenize(ft.text[L[1]:L[2]])]
+            if nth > len(loops) or loops[nth - 1][0] != "for" or hdr_toks(loops[nth - 1]) != want:
+                # ordinal drifted (a loop was added or removed before it): locate the loop by its header
+                cands = [k for k, L in enumerate(loops, 1) if L[0] == "for" and hdr_toks(L) == want]
+                if len(cands) != 1:
+                    raise VxError(f"lost anchor: {fnpath}: no unique `for` loop with header `{sec.get('match')}`")
+                nth = cands[0]
             kw, a0, bo, bc = loops[nth - 1]
             hdr = ft.text[a0:bo]
-            if [t[0] for t in tokenize(hdr)] != [t[0] for t in tokenize(sec.get("match", ""))]:
-                raise VxError(f"lost anchor: {fnpath} for-loop {nth} header is `{' '.join(hdr.split())}`, sidecar expects `{sec.get('match')}`")
             new_head = sec.get("pre", "") + "\n        loop /*L:%d:%s*/\n" % (s.lineno, lab or "") + indent(sec.get("loop", ""), 12) + "\n        {\n" + indent(sec.get("open", ""), 12) + "\n"
             ft.log.append({"rule": "N7.for_to_loop", "fn": fnpath, "from": " ".join(hdr.split()), "to": " ".join((sec.get("pre", "") + " loop { " + sec.get("open", "") + " .. " + sec.get("close", "") + " }").split())})
             ft.text = ft.text[:a0] + new_head + ft.text[bo + 1:bc] + indent(sec.get("close", ""), 12) + "\n        }" + ft.text[bc + 1:]
@@ -1117,9 +1124,20 @@ def emit_fn(em, info, unit, cur_source, blk, typemap):
 
     # ---- loops
     for s in subs:
-        if s.name == "loop":
+        if s.name in ("loop", "loop?"):
             a, lab = split_label(s.args)
-            loops_spec[int(a.split()[0])] = (s, lab)
+            key = a.strip()
+            if re.fullmatch(r"\d+", key.split()[0] if key else ""):
+                loops_spec[int(key.split()[0])] = (s, lab)
+            else:
+                want = [t[0] for t in tokenize(key.strip("`"))]
+                cands = [k for k, L in enumerate(find_loops(ft), 1) if [t[0] for t in tokenize(ft.text[L[1]:L[2]])] == want]
+                if len(cands) != 1:
+                    if s.name == "loop?":
+                        info.setdefault("optional_missing", []).append(f"{fnpath}: loop `{key}`")
+                        continue
+                    raise VxError(f"lost anchor: {fnpath}: no unique loop with header `{key}`")
+                loops_spec[cands[0]] = (s, lab)
     loops = find_loops(ft)
     for nth in loops_spec:
         if nth < 1 or nth > len(loops):
@@ -1137,7 +1155,7 @@ def emit_fn(em, info, unit, cur_source, blk, typemap):
 
     # ---- hints
     for s in subs:
-        if s.name == "hint":
+        if s.name in ("hint", "hint?"):
             a, lab = split_label(s.args)
             mm = re.match(r"(entry|end|tail|before|after|afterblock|at)\b\s*(?:#(\d+)\s*)?(.*)$", a, re.S)
             if not mm:
@@ -1154,7 +1172,13 @@ def emit_fn(em, info, unit, cur_source, blk, typemap):
             elif pos_kind == "tail":
                 pos = tail_start(ft)
             else:
-                a0, a1 = ft.find_anchor(anchor, nth)
+                try:
+                    a0, a1 = ft.find_anchor(anchor, nth)
+                except VxError:
+                    if s.name == "hint?":
+                        info.setdefault("optional_missing", []).append(f"{fnpath}: hint anchor `{anchor}`")
+                        continue
+                    raise
                 if pos_kind == "before":
                     pos = ft.text.rfind("\n", 0, a0) + 1
                 elif pos_kind == "at":
